@@ -563,6 +563,27 @@ func CorpusHistories(scratch string, names map[string]bool) ([]*History, []strin
 				g.Holders[i].Balance = rigo(200)
 			}
 		}},
+		// a contract calls X without value (X refuses such calls), then calls X again with the value it was
+		// given: the second, successful call reaches an X that the reverted frame had already made "warm";
+		// the value must arrive on X's native account
+		{"inner-call-reverts-then-succeeds", 1, 2, 7, func(s *Sim, h int64) []*TxSpec {
+			deploy := func(prog []byte, name string) *TxSpec {
+				t := s.baseTx(6, s.User(0), make([]byte, 20))
+				t.Data, t.Gas, t.Note = deployer(prog), 400000, "evm-deploy:"+name
+				return t
+			}
+			switch h {
+			case 2:
+				return SeqNonce([]*TxSpec{deploy(progPickyReceiver(), "picky-receiver"), deploy(progRetryCaller(), "retry-caller")})
+			case 4, 5:
+				if picky, retry := s.contractOf("picky-receiver"), s.contractOf("retry-caller"); picky != nil && retry != nil {
+					t := s.baseTx(6, s.User(1), retry)
+					t.Data, t.Amount, t.Gas, t.Note = word(picky), "5000", 300000, "evm-inner-call-reverts-then-succeeds-with-value"
+					return []*TxSpec{t}
+				}
+			}
+			return nil
+		}, func(g *Genesis) { easyParams(g) }},
 		// stake amounts that are not a whole number of power units: refused for a delegation as for a
 		// self-stake (the power of a stake is amount / 10^18: a remainder would be debited and never returned)
 		{"stake-amount-with-a-fraction", 1, 2, 6, func(s *Sim, h int64) []*TxSpec {
